@@ -244,6 +244,12 @@ func (s *vhStore) SubdocInsert(ctx context.Context, k string, fieldPath string, 
 			return base.ErrPathNotFound
 		}
 		target = &ca.ChannelInvalSeq
+	case "collection_access._default.c2.channel_inval_seq":
+		ca, ok := role.CollectionsAccess["_default"]["c2"]
+		if !ok {
+			return base.ErrPathNotFound
+		}
+		target = &ca.ChannelInvalSeq
 	default:
 		vFail("harness store: SubdocInsert of an unmodelled path")
 	}
